@@ -136,7 +136,7 @@ mutual
     | .n t => (F64.ofText t).map .num
     | .s v => some (.str v)
     | .null => some (.null false)
-    | .b v => if v.isEmpty then none else some (.bin v)
+    | .b v => some (.bin v)
     | .m kvs => (AV.toObjKvs kvs).map fun l => .map (sortAssoc l)
     | .l xs => (AV.toObjList xs).map .list
     | .ss xs => some (.sset (xs.foldl (fun acc x => ssetInsert x acc) []))
